@@ -237,7 +237,11 @@ def ob_union(C, na, nb):
         a, b, u = r; pa, va = ref_get(content(a), q); pb, vb = ref_get(content(b), q); cr = content(u); pr, vr = ref_get(cr, q)
         return [('sorted', z3.And(*sorted_c([k for k, _ in cr])) if len(cr) > 1 else z3.BoolVal(True)), ('present', pr == z3.Or(pa, pb)),
                 ('value', z3.And(z3.Implies(pb, vr == vb), z3.Implies(z3.And(pa, z3.Not(pb)), vr == va)))]
-    explore(C, 'union[%dx%d]' % (na, nb), entry_u, obl_u)
+    def rp_u(model):
+        names = ['ak%d' % i for i in range(na)] + ['av%d' % i for i in range(na)] + ['bk%d' % i for i in range(nb)] + ['bv%d' % i for i in range(nb)] + ['q']
+        vals = {x: model.eval(z3.BitVec(x, 32), model_completion=True).as_long() for x in names}
+        return ['pairs A ' + ' '.join('ak%d av%d' % (i, i) for i in range(na)), 'pairs B ' + ' '.join('bk%d bv%d' % (i, i) for i in range(nb)), 'union A B C', 'dump C', 'get C q'], vals
+    explore(C, 'union[%dx%d]' % (na, nb), entry_u, obl_u, rp_u)
 
 def ob_ctor(C, n):
     q = z3.BitVec('q', 32)
@@ -314,6 +318,7 @@ def py_reference(lines):
             elif t[0] == 'inverse': maps[t[2]] = {v: k for k, v in sorted(maps[t[1]].items())}; out.append('ok')
             elif t[0] in ('compose', 'compose_partial'): maps[t[3]] = {k: maps[t[2]][v] for k, v in maps[t[1]].items() if v in maps[t[2]]}; out.append('ok')
             elif t[0] == 'compose_fresh': maps[t[3]] = {k: maps[t[2]].get(v, None) for k, v in maps[t[1]].items()}; out.append('ok')
+            elif t[0] == 'union': maps[t[3]] = dict(maps[t[1]]); maps[t[3]].update(maps[t[2]]); out.append('ok')
             elif t[0] == 'try_union':
                 a, b = maps[t[1]], maps[t[2]]
                 if any(k in a and a[k] != v for k, v in b.items()): out.append('none')
